@@ -1,4 +1,5 @@
 //@ fn canonical.rs query_string_to_normalized_map
+//@ params query_string
 //@ hideutf8
 //@ props C08 C10 C12 C13 C17
 //@ ret res
